@@ -146,7 +146,8 @@ def run(tier):
         raise vlib.ToolError("MC_Multibyte emitted only %d texts" % len(mbs))
     chars = MULTI[:3] if tier == "quick" else MULTI
     for m in mbs:
-        for ci, ch in enumerate(chars):
+        # at the edges of the file every character is tried (incl. the byte order mark and the no-break space)
+        for ci, ch in enumerate(MULTI if m["k"] >= 1000 else chars):
             src = m["src"].replace("@", ch)
             mid = "b%d_%d_%d" % (m["t"], m["k"], ci)
             cases.append({"id": mid, "mode": "parse", "src": src, "label": "multibyte-offsets", "generator": "", "rules": []})
